@@ -22,7 +22,9 @@ TIME_ATTRS = {a.localpart for a in PROV_ATTRIBUTE_LITERALS}
 STRINGS = ["", "a", "hello world", 'say "hi"', "line1\nline2", "tab\there", "café 世界", "a<b & c>d",
            "back\\slash", "x" * 40, "'single'", "ümlaut", "5", "true",
            'multi\nline ending in a quote"', 'has """ inside\nsecond line', "carriage\rreturn", '"', '""', "\\",
-           "ends with backslash\\", '\\"', "prov:looks-like-a-name", " leading and trailing "]
+           "ends with backslash\\", '\\"', "prov:looks-like-a-name", " leading and trailing ",
+           # not in Unicode normal form C (combining marks, a compatibility character, conjoining jamo): kept as given
+           "Cafe\u0301 de\u0301compose\u0301", "\u212bngstro\u0308m", "\u1100\u1161\u11a8", "\tpadded\n "]
 LANGS = ["en", "fr", "en-GB"]
 FOREIGN_TYPES = [("ex", "http://a/", "mytype"), ("xsd", XSD.uri, "decimal"), ("xsd", XSD.uri, "gYear"),
                  ("xsd", XSD.uri, "short"), ("foo", "http://other/", "T"),
